@@ -35,6 +35,7 @@ issued yet, then `cancel <tid>` for every entry of `cancels` not issued yet whos
 Every code point records (owner pid, kind, Process.current(), PROCESS_STACK); the harness records Process.current() itself at
 every decision (kind `loop`).
 """
+import inspect
 import asyncio
 import logging
 
@@ -482,6 +483,17 @@ def make_cb(run, proc, j):
             await interp_async(run, proc, code, 'cbseg', 'cbaw', expect, tid)
             if raising:
                 raise CbBoom(base, prev)
+    elif j in run.scn.get('cbmark', ()):
+        # a plain function that is a coroutine function to `inspect` (a decorator that wraps an `async def` and marks itself):
+        # its body runs when it is CALLED, what it returns is awaited.  Same observations as the plain form, so the model is unchanged.
+        async def tail():
+            if raising:
+                raise CbBoom(base, prev)
+
+        def cb():
+            interp_sync(run, proc, code, 'cbseg', expect, tid)
+            return tail()
+        inspect.markcoroutinefunction(cb)
     else:
         def cb():
             interp_sync(run, proc, code, 'cbseg', expect, tid)
